@@ -1239,14 +1239,18 @@ theorem RangeStructure.verifyProofStructureOld_true {s : RangeStructure} {pk : P
 
 /-- **the defect, on the model**: for a range proof whose commitments `Cᵢ` are all `0` and whose
     `d` responses are positive, every reconstructed commitment is `0` – independently of the
-    descriptor (`k`, `sign`, `a`), of the attribute response and of the challenge. The verifier
-    therefore hashes constants: the range proof binds nothing. -/
+    descriptor (`k`, `sign`, `a`), of the attribute response and of the challenge. When the defect
+    was found the verifier therefore hashed constants (the list was `replicate (n+1) 0`): the
+    range proof bound nothing. Since Go commit d9916c2 the list starts with the statement
+    (`Cᵢ`, `k`, `a`, `sign`, `l_d`), so the descriptor is hashed even here. -/
 theorem RangeStructure.commitmentsFromProof_zero {rp : RangeProof} {index : Int} {pk : PublicKey}
     {s : RangeStructure} (h : rp.extractStructure index pk = some s)
     (hv : s.verifyProofStructureOld pk rp = true) (hn : 1 < pk.n) {c : Int} (hc : 0 < c)
     (hcs : ∀ i < rp.cs.length, rp.cs[i]? = some (some 0))
     (hds : ∀ i < rp.cs.length, ∃ d, rp.ds[i]? = some (some d) ∧ 0 < d) :
-    s.commitmentsFromProof pk rp c = .ok (List.replicate (rp.cs.length + 1) 0) := by
+    s.commitmentsFromProof pk rp c =
+      .ok (List.replicate rp.cs.length 0 ++ [s.k, (s.a : Int), s.sign, (s.ld : Int)] ++
+        List.replicate (rp.cs.length + 1) 0) := by
   obtain ⟨k, hk, _, hlen, _, _, hnew⟩ := RangeProof.extractStructure_some h
   have hsec := rangeNewWithParams_secretsOk hnew
   obtain ⟨_, hcl, hmsec, hcsec⟩ := hsec
@@ -1294,10 +1298,82 @@ theorem RangeStructure.commitmentsFromProof_zero {rp : RangeProof} {index : Int}
     · rw [← hqi]
     · rw [rangeBases_C, hcs i hi]; rfl
     · exact hresC q hq
+  have hD : ∀ x ∈ rp.cs, deref "Cs[i]" x = (.ok 0 : GoM Int) := by
+    intro x hx
+    obtain ⟨i, hi, hxi⟩ := List.getElem_of_mem hx
+    have := hcs i hi
+    rw [List.getElem?_eq_getElem hi, hxi] at this
+    cases Option.some.inj this
+    rfl
   unfold RangeStructure.commitmentsFromProof
-  rw [hM, GoM.ok_bind, List.mapM_const_ok _ 0 _ hC, GoM.ok_bind]
+  rw [hM, GoM.ok_bind, List.mapM_const_ok _ 0 _ hC, GoM.ok_bind,
+    List.mapM_const_ok _ 0 _ hD, GoM.ok_bind]
   simp only [GoM.pure_eq_ok, Except.ok.injEq]
-  rw [List.replicate_succ, List.map_const', hcl]
+  rw [List.replicate_succ, List.map_const', List.map_const', hcl]
+
+/-! ## 9b. the statement is part of the challenge contributions (Go commit d9916c2) -/
+
+theorem List.mapM_ok_forall₂ {α β} (f : α → GoM β) (l : List α) (bs : List β)
+    (h : l.mapM f = .ok bs) : List.Forall₂ (fun a b => f a = .ok b) l bs := by
+  induction l generalizing bs with
+  | nil =>
+    rw [List.mapM_nil, GoM.pure_eq_ok] at h
+    cases h; exact List.Forall₂.nil
+  | cons a rest ih =>
+    rw [List.mapM_cons, GoM.bind_ok_iff] at h
+    obtain ⟨b, hb, h⟩ := h
+    rw [GoM.bind_ok_iff] at h
+    obtain ⟨bs', hbs', h⟩ := h
+    rw [GoM.pure_eq_ok] at h
+    cases h
+    exact List.Forall₂.cons hb (ih bs' hbs')
+
+theorem mapM_deref_ok {w : String} {l : List (Option Int)} {vs : List Int}
+    (h : l.mapM (deref w) = .ok vs) : l = vs.map some := by
+  have hf := List.mapM_ok_forall₂ _ _ _ h
+  induction hf with
+  | nil => rfl
+  | cons hab _ ih =>
+    rw [deref_ok_iff] at hab
+    rw [List.map_cons, hab]
+    congr 1
+    exact ih (by
+      rw [List.mapM_cons, GoM.bind_ok_iff] at h
+      obtain ⟨b, _, h⟩ := h
+      rw [GoM.bind_ok_iff] at h
+      obtain ⟨bs', hbs', h⟩ := h
+      rw [GoM.pure_eq_ok] at h
+      cases h; exact hbs')
+
+/-- shape of the list `commitmentsFromProof` returns: the commitments `Cᵢ` of the proof (all
+    present), then `k`, `a`, `sign`, `l_d` of the structure, then one reconstructed commitment
+    for `mCorrect` and one per `cRep`. -/
+theorem RangeStructure.commitmentsFromProof_shape {s : RangeStructure} {pk : PublicKey} {p : RangeProof}
+    {c : Int} {l : List Int} (h : s.commitmentsFromProof pk p c = .ok l) :
+    ∃ cs rest : List Int, p.cs = cs.map some ∧ rest.length = s.cRep.length + 1 ∧
+      l = cs ++ [s.k, (s.a : Int), s.sign, (s.ld : Int)] ++ rest := by
+  unfold RangeStructure.commitmentsFromProof at h
+  rw [GoM.bind_ok_iff] at h
+  obtain ⟨m, _, h⟩ := h
+  rw [GoM.bind_ok_iff] at h
+  obtain ⟨rs, hrs, h⟩ := h
+  rw [GoM.bind_ok_iff] at h
+  obtain ⟨st, hst, h⟩ := h
+  rw [GoM.pure_eq_ok] at h
+  cases h
+  refine ⟨st, m :: rs, mapM_deref_ok hst, ?_, rfl⟩
+  rw [List.length_cons, (List.mapM_ok_forall₂ _ _ _ hrs).length_eq]
+
+/-- two lists that start with equally many `Cᵢ` followed by the four descriptor values, placed
+    after a common prefix, are equal only if the `Cᵢ` and the descriptor values agree. -/
+theorem statement_block_inj {pre cs cs' rest rest' post post' : List Int} {k a sg ld k' a' sg' ld' : Int}
+    (hlen : cs.length = cs'.length)
+    (h : pre ++ (cs ++ [k, a, sg, ld] ++ rest) ++ post = pre ++ (cs' ++ [k', a', sg', ld'] ++ rest') ++ post') :
+    cs = cs' ∧ k = k' ∧ a = a' ∧ sg = sg' ∧ ld = ld' := by
+  simp only [List.append_assoc, List.append_cancel_left_eq] at h
+  obtain ⟨h1, h2⟩ := List.append_inj h hlen
+  simp only [List.cons_append, List.cons.injEq] at h2
+  exact ⟨h1, h2.1, h2.2.1, h2.2.2.1, h2.2.2.2.1⟩
 
 /-! ## 10. model-level completeness and extraction for range structures
 
